@@ -1,4 +1,6 @@
 import GopatchModel.Sexp
+import GopatchModel.Cli
+import GopatchModel.Generated
 open Gopatch
 
 def errStr : Err → String
@@ -22,9 +24,58 @@ def handleEngine (id : String) (xs : List Sx) : String :=
   | some e => s!"(res {id} (trace {" ".intercalate tr}) {errStr e})"
   | none => s!"(res {id} (trace {" ".intercalate tr}) (ok) {canonFile f})"
 
+def q (s : String) : String := "\"" ++ escapeStr s ++ "\""
+
+def decodeApply : Sx → Apply
+  | .list [.atom "nomatch"] => .noMatch
+  | .list [.atom "replaceerr", m] => .replaceErr m.asStr
+  | .list [.atom "formaterr", m] => .formatErr m.asStr
+  | .list (.atom "ok" :: b :: cs) => .ok b.asStr (cs.map Sx.asStr)
+  | _ => .noMatch
+
+def decodeFileIn : Sx → Option FileIn
+  | .list [.atom "file", a, p, c, ps, g, ap] =>
+      some { abs := a.asStr, provided := p.asStr
+             content := (match c with | .list [.atom "unreadable"] => none | x => some x.asStr)
+             parses := ps.asStr == "1", generated := g.asStr == "1", apply := decodeApply ap }
+  | _ => none
+
+def diffMarker (name a b : String) : String := "\x00DIFF\x00" ++ name ++ "\x00" ++ b
+
+def printOut (o : Opts) : Out → Option String
+  | .write p b => some s!"(w {q p} {q b})"
+  | .stdout s => some s!"(o {q s})"
+  | .stderr s => some s!"(e {q s})"
+  | .log s => if o.verbose then some s!"(o {q (s ++ "\n")})" else none
+  | .error s => some s!"(err {q s})"
+  | .lateError s => some s!"(lerr {q s})"
+
+def handleCli (id : String) (xs : List Sx) : String :=
+  let os := (Sx.field xs "opts").map Sx.asStr
+  let o : Opts := { diff := os.contains "diff", print := os.contains "print", skipImports := os.contains "si",
+                    skipGenerated := os.contains "sg", verbose := os.contains "v" }
+  let files := (Sx.field xs "files").filterMap decodeFileIn
+  let outs := runFiles o diffMarker files
+  s!"(res {id} (exit {exitOf outs}) (outs {" ".intercalate (outs.filterMap (printOut o))}))"
+
+def decodeCmt : Sx → Option Cmt
+  | .list [.atom "c", t, b] => some { text := t.asStr, beforePackage := b.asStr == "1" }
+  | _ => none
+
+def handleGenerated (id : String) (xs : List Sx) : String :=
+  let groups := (Sx.field xs "groups").map (fun g => match g with
+    | .list cs => cs.filterMap decodeCmt
+    | _ => [])
+  let doc := match Sx.field xs "doc" with
+    | [] => none
+    | cs => some (cs.filterMap decodeCmt)
+  s!"(res {id} {if checkGenerated groups doc then 1 else 0})"
+
 def handleLine (line : String) : String :=
   match Sx.ofString line with
   | .list (.atom "case" :: id :: .atom "engine" :: xs) => handleEngine id.asStr xs
+  | .list (.atom "case" :: id :: .atom "cli" :: xs) => handleCli id.asStr xs
+  | .list (.atom "case" :: id :: .atom "generated" :: xs) => handleGenerated id.asStr xs
   | .list (.atom "echo" :: [v]) => canonV (decodeV v)
   | _ => "(bad-op)"
 
